@@ -109,6 +109,8 @@ pub enum Who {
 #[derive(Clone, Debug, Serialize, Deserialize, PartialEq)]
 pub enum Cmd {
     Send { dst: Dst, tag: u8, who: Who },
+    /// `Out::broadcast`: the same message to each listed actor, in list order.
+    Broadcast { dsts: Vec<u8>, tag: u8, who: Who },
     SetTimer(u8),
     CancelTimer(u8),
     Choose { key: u8, opts: Vec<u8> },
@@ -138,10 +140,24 @@ pub struct Table {
 #[derive(Clone, Debug, PartialEq)]
 pub enum RCmd {
     Send(Id, M),
+    /// emitted through `Out::broadcast`; semantically the sends in list order
+    Bcast(Vec<Id>, M),
     SetTimer(u8),
     CancelTimer(u8),
     /// empty options = remove the key
     Choose(String, Vec<u8>),
+}
+
+/// Expands broadcasts into the individual sends they stand for.
+pub fn flat(cmds: Vec<RCmd>) -> Vec<RCmd> {
+    let mut out = Vec::with_capacity(cmds.len());
+    for c in cmds {
+        match c {
+            RCmd::Bcast(ds, m) => out.extend(ds.into_iter().map(|d| RCmd::Send(d, m.clone()))),
+            c => out.push(c),
+        }
+    }
+    out
 }
 
 pub struct Effect {
@@ -172,6 +188,15 @@ impl Table {
                         Who::Abs(i) => Some(Id::from(*i as usize)),
                     };
                     RCmd::Send(d, M { tag: *tag, who: w })
+                }
+                Cmd::Broadcast { dsts, tag, who } => {
+                    let w = match who {
+                        Who::Nobody => None,
+                        Who::Me => Some(me),
+                        Who::Src => src,
+                        Who::Abs(i) => Some(Id::from(*i as usize)),
+                    };
+                    RCmd::Bcast(dsts.iter().map(|i| Id::from(*i as usize)).collect(), M { tag: *tag, who: w })
                 }
                 Cmd::SetTimer(t) => RCmd::SetTimer(*t),
                 Cmd::CancelTimer(t) => RCmd::CancelTimer(*t),
@@ -230,6 +255,7 @@ fn emit(cmds: Vec<RCmd>, o: &mut Out<ScriptActor>) {
     for c in cmds {
         match c {
             RCmd::Send(d, m) => o.send(d, m),
+            RCmd::Bcast(ds, m) => o.broadcast(&ds, &m),
             RCmd::SetTimer(t) => o.set_timer(t, stateright::actor::model_timeout()),
             RCmd::CancelTimer(t) => o.cancel_timer(t),
             RCmd::Choose(k, opts) => {
@@ -321,7 +347,7 @@ fn gen_cmds(rng: &mut Rng, g: &SysGen, n_actors: usize, max: u64) -> Vec<Cmd> {
     let k = rng.below(max + 1);
     (0..k)
         .map(|_| {
-            let mut w = vec![6u64, 0, 0, 0, 0];
+            let mut w = vec![6u64, 0, 0, 0, 0, 1];
             if g.use_timers {
                 w[1] = 2;
                 w[2] = 1;
@@ -354,7 +380,13 @@ fn gen_cmds(rng: &mut Rng, g: &SysGen, n_actors: usize, max: u64) -> Vec<Cmd> {
                     let n = rng.range(1, 3);
                     Cmd::Choose { key: rng.below(2) as u8, opts: (0..n).map(|_| rng.below(g.randoms as u64) as u8).collect() }
                 }
-                _ => Cmd::Unchoose(rng.below(2) as u8),
+                4 => Cmd::Unchoose(rng.below(2) as u8),
+                _ => Cmd::Broadcast {
+                    // possibly empty, with repeats, possibly including the sender itself
+                    dsts: (0..rng.below(4)).map(|_| rng.below(n_actors as u64) as u8).collect(),
+                    tag: rng.below(g.tags as u64) as u8,
+                    who: if rng.chance(1, 4) { Who::Me } else { Who::Nobody },
+                },
             }
         })
         .collect()
